@@ -108,6 +108,11 @@ func (s *Server) livesimHandlerFunc(w http.ResponseWriter, r *http.Request) {
 		return
 	}
 	cfg.SetHost(s.Cfg.Host, r)
+	if err := checkDRM(cfg.DRM, s.Cfg.DrmCfg, a); err != nil {
+		log.Error("drm check", "err", err)
+		http.Error(w, err.Error(), http.StatusBadRequest)
+		return
+	}
 	switch filepath.Ext(r.URL.Path) {
 	case ".mpd":
 		if !checkQuery(cfg.Query, r.URL) {
@@ -188,6 +193,30 @@ func (s *Server) livesimHandlerFunc(w http.ResponseWriter, r *http.Request) {
 		http.Error(w, "unknown file extension", http.StatusNotFound)
 		return
 	}
+}
+
+// checkDRM checks that the drm (or eccp) URL parameter can be applied to the asset.
+func checkDRM(drmName string, drmCfg *drm.DrmConfig, a *asset) error {
+	switch drmName {
+	case "":
+		return nil
+	case "eccp-cenc", "eccp-cbcs":
+		// Always available
+	default:
+		if strings.HasPrefix(drmName, "eccp-") {
+			return fmt.Errorf("eccp scheme %q is not cenc or cbcs", strings.TrimPrefix(drmName, "eccp-"))
+		}
+		if drmCfg == nil {
+			return fmt.Errorf("drm parameter %q, but no DRM configured", drmName)
+		}
+		if _, ok := drmCfg.Map[drmName]; !ok {
+			return fmt.Errorf("drm parameter %q, but no matching DRM configuration found", drmName)
+		}
+	}
+	if a.refRep != nil && a.refRep.PreEncrypted {
+		return fmt.Errorf("drm parameter %q, but pre-encrypted asset %s cannot be encrypted again", drmName, a.AssetPath)
+	}
+	return nil
 }
 
 func checkQuery(cfgQuery *Query, u *url.URL) bool {
